@@ -332,6 +332,10 @@ class Check:
 
     def finish(self, level="proof", checker_cmd=None):
         self.cov["distinct_nontrivial"] = len(self._distinct)
+        if level == "proof" and self.discharged < 1:
+            # The Lean obligations did not check on this tree (a VIOLATION was reported by
+            # proof_gate); what this run can still attest is the model-free exploration.
+            level = "exploration"
         cov = dict(self.cov)
         cov["obligations"] = self.obligations
         cov["discharged"] = self.discharged
@@ -355,7 +359,8 @@ class Check:
             json.dump(ev, f, indent=1, sort_keys=True, default=str)
         if problems:
             print("evidence invalid: %s" % problems, file=sys.stderr)
-            return 2
+            if not self.violations:
+                return 2
         print("%s %s seed=%d: obligations %d/%d, evaluations %d (distinct non-trivial %d), "
               "violations %d, known findings %d, %.1fs" % (
                   self.prop, self.tier, self.seed, self.discharged, self.obligations,
